@@ -293,7 +293,7 @@ func runCone(w *World, cs *Contracts, cone *Cone, tier string, seed int, outDir 
 	res := make([]*Result, len(all))
 	sem := make(chan struct{}, 16)
 	done := make(chan int, len(all))
-	budget := 10
+	budget := 20
 	if tier == "thorough" {
 		budget = 60
 	}
@@ -320,11 +320,9 @@ func runCone(w *World, cs *Contracts, cone *Cone, tier string, seed int, outDir 
 			if r.Status != "unsat" || r.Obl.Guard == "" || r.Obl.Guard == "true" {
 				continue
 			}
-			fb, okb := fullBg[r.Obl.Func]
-			if !okb {
-				fb = run.bgOf[r.Obl]
-			}
-			k := gk{fb, r.Obl.Guard} // reachability of the program point under everything the function assumes
+			// reachability of the program point under what is assumed on the way to it (one probe per function and guard)
+			k := gk{r.Obl.Func, r.Obl.Guard}
+			probeBg := run.bgOf[r.Obl]
 			mu.Lock()
 			_, done := seen[k]
 			if !done {
@@ -335,23 +333,23 @@ func runCone(w *World, cs *Contracts, cone *Cone, tier string, seed int, outDir 
 				continue
 			}
 			wg.Add(1)
-			go func(r *Result, k gk) {
+			go func(r *Result, k gk, probeBg string) {
 				defer wg.Done()
 				sem <- struct{}{}
 				defer func() { <-sem }()
 				cover := &Obligation{Name: r.Obl.Name + "#reach", Func: r.Obl.Func, Class: "cover", Goal: not(k.guard)}
-				cr := solveOne(outDir, k.bg, cover, "quick", 5, seed)
+				cr := solveOne(outDir, probeBg, cover, "quick", 5, seed)
 				mu.Lock()
 				seen[k] = cr.Status
 				mu.Unlock()
-			}(r, k)
+			}(r, k, probeBg)
 		}
 		wg.Wait()
 		for _, r := range res {
 			if r.Status != "unsat" || r.Obl.Guard == "" {
 				continue
 			}
-			if seen[gk{run.bgOf[r.Obl], r.Obl.Guard}] == "unsat" {
+			if seen[gk{r.Obl.Func, r.Obl.Guard}] == "unsat" {
 				r.Vacuous = true
 			}
 		}
@@ -571,7 +569,7 @@ func cmdBaseline(args []string) {
 		}
 		outDir := filepath.Join(verifDir, "out", "baseline-"+id)
 		os.RemoveAll(outDir)
-		budgetOverride = 4
+		budgetOverride = 6
 		run := runCone(w, cs, cone, "baseline", 0, outDir)
 		old := loadBaseline(id)
 		known := loadKnown()
@@ -584,15 +582,15 @@ func cmdBaseline(args []string) {
 			if findKnown(known, id, r.Obl.Name) != nil {
 				continue
 			}
-			if r.Status == "unsat" && r.Seconds >= 2.5 && !r.Vacuous {
+			if r.Status == "unsat" && r.Seconds >= 5.0 && !r.Vacuous {
 				// measured under 16-way contention: time it again on its own before deciding
 				solverHints = bl.Hints
-				r2 := solveOne(outDir, run.bgOf[r.Obl], r.Obl, "quick", 4, 0)
+				r2 := solveOne(outDir, run.bgOf[r.Obl], r.Obl, "quick", 6, 0)
 				if r2.Status == "unsat" {
 					r.Seconds = r2.Seconds
 				}
 			}
-			if r.Status == "unsat" && r.Seconds < 2.5 && !r.Vacuous {
+			if r.Status == "unsat" && r.Seconds < 5.0 && !r.Vacuous {
 				n++
 				continue
 			}
@@ -622,6 +620,8 @@ func cmdBaseline(args []string) {
 			}
 		}
 		fmt.Printf("%s: %d claimed, %d unclaimed, %d functions, %.1fs\n", id, n, len(bl.Unclaimed), len(run.funcs), run.wall)
-		os.RemoveAll(outDir)
+		if os.Getenv("GOBTVC_KEEP") == "" {
+			os.RemoveAll(outDir)
+		}
 	}
 }
